@@ -674,6 +674,11 @@ def specials():
     # statements whose handling depends on the debug level in the rules (fatal by default, tolerated under -d)
     for k, body in enumerate(["\tgoto 1;\n", "\tgoto ;\n", "\tgoto *p;\n", "\tgoto (a);\n", "\tint\ti;\n\n\ti = 0;\n\t) i++;\n"]):
         out.append((f"zoo_dbg{k}.c", ok_func(f"zoo_dbg{k}.c", body=body + "\treturn (0);\n"), "zoo"))
+    # #if expressions nested d parentheses deep, one depth per file: the constant-expression parser runs under an absolute
+    # recursion limit, so somewhere in this range the answer flips from a verdict to "too complex" - where exactly depends
+    # on how deep the caller's stack already is (which must be the same for every input channel and option)
+    for d in range(60, 100, 2):
+        out.append((f"depth_if{d}.c", header42(f"depth_if{d}.c") + "\n#if " + "(" * d + "1" + ")" * d + "\n# define A 1\n#endif\n\nint\tmain(void)\n{\n\treturn (0);\n}\n", "depth"))
     # malformed literals (4.11)
     lits = ["0b102", "0189", "0xfg", "10lul", "10q", "1uu", "0x1e+1", "1e", "1e+", "1.e-", "1.2.3", "1.0q", "1.0ff",
             "0xx1p1", "0x1.8", "''", "'ab'", "'\\x'", "'\\q'", "L'a'", "u8\"s\"", "L''", "\"\\xZZ\"", "1..2", ".5.", "0x",
